@@ -202,7 +202,7 @@ def rule_option_keys(prog: Program) -> List[Instance]:
                         else f"option tables disagree: packed {sorted(packed)}, extracted {sorted(popped)}, accepted by compute_output_geobox {sorted(accepted)}, straight={wired_ok}", xr.where()))
     # ODCExtension.output_geobox forwards **kw to compute_output_geobox(gbox, crs, **kw)
     og = prog.func("_xr_interop:ODCExtension.output_geobox")
-    ok = any(isinstance(n, ast.Call) and call_name(n) == "compute_output_geobox" and [short(a) for a in n.args] == ["gbox", "crs"] and any(k.arg is None for k in n.keywords) for n in walk_own(og.node))
+    ok = any(isinstance(n, ast.Call) and call_name(n) == "compute_output_geobox" and len(n.args) == 2 and short(n.args[1]) == og.param_names()[1] and any(k.arg is None for k in n.keywords) for n in walk_own(og.node))
     out.append(Instance("R-FORWARD", f"{og.qual}#kw-splat", OK if ok else BAD, "compute_output_geobox(gbox, crs, **kw)" if ok else "output_geobox does not forward its options to compute_output_geobox", og.where()))
     # both variants: extracted options go to output_geobox, the rest to the warp
     for q in ("_xr_interop:_xr_reproject_da", "_xr_interop:_xr_reproject_ds"):
